@@ -30,7 +30,8 @@ class Call(Expression):
 
         _ParseFunction = Code('_ParseFunction')
 
-        if flags.uses_context and not self.func.is_local:
+        is_super = getattr(self.func, 'is_super', False)
+        if flags.uses_context and not self.func.is_local and not is_super:
             resolved_func = f'_ctx.{self.func.resolved}'
         else:
             resolved_func = self.func.resolved
